@@ -806,7 +806,14 @@ namespace jsoncons {
                         case json_storage_kind::object:
                             if (!kv.value().empty())
                             {
-                                temp.emplace_back(std::move(kv.value()));
+                                JSONCONS_TRY
+                                {
+                                    temp.emplace_back(std::move(kv.value()));
+                                }
+                                JSONCONS_CATCH(...)
+                                {
+                                    // out of memory: the value stays where it is and is destroyed with this object
+                                }
                             }
                             break;
                         default:
